@@ -65,7 +65,15 @@ let () =
           let fields = List.filteri (fun i _ -> i < 8) r and flag = List.nth r 8 in
           print_endline (String.concat ";" (List.map (fun (tag, p) ->
             match int_of_z tag with 0 -> "N" | 1 -> hex_of p | _ -> "P") fields)
-            ^ "|L" ^ string_of_int (int_of_z (fst flag)))
+            ^ "|L" ^ string_of_int (int_of_z (fst flag))
+            ^ "|P" ^ String.concat ";" (List.map (function
+                | None -> "N"
+                | Some (a, b) ->
+                  let show = function
+                    | None -> "!"
+                    | Some [] -> "-"
+                    | Some l -> String.concat "," (List.map hex_of l) in
+                  show a ^ ":" ^ show b) (run_case_obs fields)))
         | _ -> print_endline "E;;bad case line"
       end
     done
